@@ -19,7 +19,7 @@ const CONTEXTS: [(&[u8], &[u8], &str); 6] = [(b"", b"", "bare-symbol"), (b"a", b
 
 /// Escapes / multi-byte text placed before and after the sequence so that the scratch-buffer
 /// paths are taken: (before, after).
-const ADJ: [(&[u8], &[u8], &str); 5] = [(b"", b"", "plain"), (b"\\x41;", b"", "r6rs-escape-before"), (b"", b"\\n", "escape-after"), (b"\\101", b"", "elisp-octal-before"), (b"\xc3\xa9", b"\xc3\xa9", "multibyte-around")];
+const ADJ: [(&[u8], &[u8], &str); 8] = [(b"", b"", "plain"), (b"\\x41;", b"", "r6rs-escape-before"), (b"", b"\\n", "escape-after"), (b"\\101", b"", "elisp-octal-before"), (b"\xc3\xa9", b"\xc3\xa9", "multibyte-around"), (b"\\\r", b"", "backslash-cr-before"), (b"\\\n ", b"", "backslash-lf-before"), (b"\\", b"", "backslash-before")];
 
 /// All strs reachable from a value must be well-formed UTF-8 when re-validated from their bytes.
 fn first_bad_str(v: &Value, depth: usize) -> Option<Vec<u8>> {
